@@ -46,9 +46,6 @@ def maxOfType : PType → Bytes
 
 def zeroOfType (ty : PType) : Bytes := leBytes ty.width 0
 
-/-- the sentinel of the string accumulators -/
-def nilString : Bytes := strBytes "__#NIL#__"
-
 structure Stats where
   min : Bytes
   max : Bytes
@@ -58,7 +55,7 @@ deriving Repr, BEq, DecidableEq
 
 def Stats.init (ty : PType) : Stats :=
   match ty with
-  | .str => { min := nilString, max := nilString }
+  | .str => { min := [], max := [] }
   | .bool => { min := [], max := [] }
   | _ => { min := maxOfType ty, max := zeroOfType ty }
 
@@ -67,8 +64,9 @@ def Stats.addVal (ty : PType) (s : Stats) (v : Bytes) : Stats :=
   match ty with
   | .bool => { s with nonNils := s.nonNils + 1 }
   | .str =>
-    let mn := if s.min = nilString then v else if vLt .str v s.min then v else s.min
-    let mx := if s.max = nilString then v else if vLt .str s.max v then v else s.max
+    -- `seen` of the templates is `nonNils > 0`
+    let mn := if s.nonNils = 0 then v else if vLt .str v s.min then v else s.min
+    let mx := if s.nonNils = 0 then v else if vLt .str s.max v then v else s.max
     { s with min := mn, max := mx, nonNils := s.nonNils + 1 }
   | _ =>
     let mn := if vLt ty v s.min then v else s.min
@@ -91,8 +89,8 @@ def Stats.result (ty : PType) (required : Bool) (s : Stats) : Option Nat × Opti
   | .bool, false => (some s.nils, none, none)
   | .str, req =>
     ((if req then none else some s.nils),
-     (if s.min = nilString then none else some s.min),
-     (if s.max = nilString then none else some s.max))
+     (if s.nonNils = 0 then none else some s.min),
+     (if s.nonNils = 0 then none else some s.max))
   | _, true => (none, some s.min, some s.max)
   | _, false => (some s.nils, (if s.nonNils = 0 then none else some s.min), (if s.nonNils = 0 then none else some s.max))
 
